@@ -113,7 +113,9 @@ PROP = {
                 "(6-16 peers, registrations of every proxy type with colliding names/ports/routes/groups, closes, nat-hole traffic), a second "
                 "real frpc against a scripted server sending every msg type (cstorm), a direct stress of nathole.Controller (race6) and a "
                 "flooding STUN peer (stun). The child runs without recover; the parent classifies exit / panic / fatal error by the first "
-                "frp frame of the dying goroutine, `hang` after 90 s, and `watch` = echo through the tunnel + fresh login. One op line of "
+                "frp frame of the dying goroutine, `hang` = no answer within 90 s AND none (or a failed watchdog) in the 90 s after that - the "
+                "child is then asked for its goroutine dump (SIGQUIT, kept as /tmp/c16-hang-*.txt) -, `slow:<answer>` = the answer came in "
+                "the second 90 s and the watchdog passed right after (skipped, not a failure: a loaded machine), and `watch` = echo through the tunnel + fresh login. One op line of "
                 "a storm stands for hundreds of messages. Non-trivial = ops that reach a handler; `stat` lines carry what the server answered. "
                 "Work and visitor connections (eng_crash_work.go): `wconn` registers a tcp / udp / stcp / sudp / xtcp proxy on a fresh session (or "
                 "targets the real frpc's stcp / sudp proxy as a visitor), offers NewWorkConn, makes frps take one (user connection, datagram, "
